@@ -2910,6 +2910,11 @@ again:
 		case METH_DECLINECOUNTER:
 			break;
 		}
+		if (UNLIKELY(i.v == INSVERB_UNK)) {
+			/* nothing we could make an instruction of, but that
+			 * mustn't be mistaken for `need more data' */
+			goto again;
+		}
 	}
 	return i;
 }
